@@ -168,12 +168,42 @@ func LoadConfig(filePath string) (*Config, error) {
 		return nil, fmt.Errorf("error parsing config file: %w", err)
 	}
 
+	// Keys a file leaves out take their documented defaults
+	config.applyDefaults()
+
 	// Validate configuration
 	if err := config.Validate(); err != nil {
 		return nil, fmt.Errorf("invalid configuration: %w", err)
 	}
 
 	return &config, nil
+}
+
+// applyDefaults fills in the defaults of keys that were left out of an enabled section (the values the
+// balancer and the metrics server fall back to at run time), so that a file may omit them.
+func (c *Config) applyDefaults() {
+	if c.CircuitBreaker.Enabled {
+		if c.CircuitBreaker.FailureThreshold == 0 {
+			c.CircuitBreaker.FailureThreshold = 5
+		}
+		if c.CircuitBreaker.SuccessThreshold == 0 {
+			c.CircuitBreaker.SuccessThreshold = 1
+		}
+		if c.CircuitBreaker.TimeoutSeconds == 0 {
+			c.CircuitBreaker.TimeoutSeconds = 60
+		}
+		if c.CircuitBreaker.IntervalSeconds == 0 {
+			c.CircuitBreaker.IntervalSeconds = 60
+		}
+	}
+	if c.Metrics.Enabled {
+		if c.Metrics.Port == 0 {
+			c.Metrics.Port = 9090
+		}
+		if c.Metrics.Path == "" {
+			c.Metrics.Path = "/metrics"
+		}
+	}
 }
 
 // Validate performs comprehensive validation of the configuration
